@@ -16,7 +16,7 @@ PROP = dict(
 )
 META = dict(
     text=("Lean theorems for every signature scheme satisfying correctness, unforgeability and binding: a signed commit verifies under the signer's key, reports a mismatch under any other key and is invalid after any change of its signed content; "
-          "a push is accepted only if every reachable signed block was signed over exactly its content by the identity it names, so one non-verifying attached signature anywhere rejects the push (no merge event). "
+          "a push is accepted only if every reachable signed block was signed over exactly its content by the identity it names, so one non-verifying attached signature anywhere rejects the push (no merge event); whatever verifies against the author's signature is the authored content, so with content-hash identifiers every field block a verifying composite links is one the author linked (the unsigned later field blocks are covered by the composite). "
           "Tied to /repo with real keys of both types: API outcomes and DAG-sync outcomes for every block and every single-field tampering are compared with the model."),
     design_ref="DESIGN.md section 8, C12",
     note="Trusted: Lean kernel; harness/sign; the cryptographic primitives (parameters of the model). The reachable-set walk of loadBlockLinks is modelled as 'all reachable blocks are checked' and exercised at depth 0 and 1.",
